@@ -220,7 +220,15 @@ pub fn hpoa_row(rng: &mut Rng, db: &str, id: &str, nm: &str, qualifier: &str, hp
 /// DECIPHER rows. Returns (text, number of ignored rows).
 pub fn render_hpoa(rng: &mut Rng, f: &Facts, case: &mut Case) -> (String, u64) {
     let mut head: Vec<String> = HPOA_COMMENTS.iter().take(rng.below(5) as usize).map(|s| s.to_string()).collect();
-    head.push(HPOA_HEADER.to_string());
+    // the column header: current layout, the older layout (a `#` comment), or none at all
+    match rng.below(6) {
+        0 => case.stat("hpoa_without_header", 1),
+        1 => {
+            head.push(format!("#{HPOA_HEADER}"));
+            case.stat("hpoa_header_as_comment", 1);
+        }
+        _ => head.push(HPOA_HEADER.to_string()),
+    }
     let tids: Vec<u32> = f.terms.iter().map(|t| t.0).collect();
     let mut rows = vec![];
     for (k, db) in [(1usize, "OMIM"), (2usize, "ORPHA")] {
